@@ -108,6 +108,24 @@ def guardedArith (p g : Nat) : Arith Int :=
     ltRaw := fun a b => a < b
     raw := fun a => toString a }
 
+/-- Guarded's comparison statistics (class attributes `maxDiff`, `minDiff`, printed in the arithmetic report):
+    the largest difference below the tolerance and the smallest difference at or above it, over the comparisons made so far -/
+structure CmpStats where
+  maxDiff : Int
+  minDiff : Int
+deriving Repr, DecidableEq
+
+/-- `Guarded.initialize` -/
+def statsInit (p g : Nat) : CmpStats := { maxDiff := 0, minDiff := pow10 (p + g) * 100 }
+
+/-- the bookkeeping part of `Guarded.__cmp__` -/
+def statsStep (g : Nat) (s : CmpStats) (ab : Int × Int) : CmpStats :=
+  let d : Int := ((ab.1 - ab.2).natAbs : Int)
+  { maxDiff := if d < geps g ∧ s.maxDiff < d then d else s.maxDiff
+    minDiff := if geps g ≤ d ∧ d < s.minDiff then d else s.minDiff }
+
+def statsRun (g : Nat) (s : CmpStats) (pairs : List (Int × Int)) : CmpStats := pairs.foldl (statsStep g) s
+
 /-! ## Rational -/
 def ratCmp (a b : Rat) : Int := if a < b then -1 else if a == b then 0 else 1
 
